@@ -151,6 +151,14 @@ func (x *Exec) execInstr(fr *Frame, st *State, ins ssa.Instruction) {
 		k := x.val(fr, st, t.Key)
 		v := x.val(fr, st, t.Value)
 		x.assume(st, fmt.Sprintf("(not (= %s 0))", m)) // assignment to an entry of a nil map panics
+		if len(x.db.FieldWrites) > 0 {
+			mtt := mt.Underlying().(*types.Map)
+			x.checkAccessContracts(fr, st, "map", typeKey(mt.Underlying()), "", map[string]specVal{
+				"k":      {term: k, typ: mtt.Key()},
+				"v":      {term: v, typ: mtt.Elem()},
+				"update": {term: "true", typ: tBool},
+			})
+		}
 		hk, hs, hm := x.mapHas(st, mt)
 		vk, vs, vm := x.mapVal(st, mt)
 		lk, ls, lm := x.mapLen(st, mt)
@@ -225,6 +233,12 @@ func (x *Exec) storeTo(fr *Frame, st *State, addr ssa.Value, vt types.Type, v st
 		return
 	}
 	et := deref(addr.Type())
+	if ia, ok := addr.(*ssa.IndexAddr); ok && len(x.db.FieldWrites) > 0 {
+		x.checkAccessContracts(fr, st, "elem", typeKey(et), "", map[string]specVal{
+			"v":   {term: v, typ: et},
+			"idx": {term: x.val(fr, st, ia.Index), typ: tInt},
+		})
+	}
 	if fa, ok := addr.(*ssa.FieldAddr); ok {
 		if _, known := fr.laddr[fa.X]; !known {
 			base := x.val(fr, st, fa.X)
@@ -706,6 +720,12 @@ func (x *Exec) lookup(fr *Frame, st *State, t *ssa.Lookup) {
 	if mt, ok := t.X.Type().Underlying().(*types.Map); ok {
 		m := x.val(fr, st, t.X)
 		k := x.val(fr, st, t.Index)
+		if len(x.db.FieldWrites) > 0 {
+			x.checkAccessContracts(fr, st, "map", typeKey(t.X.Type().Underlying()), "", map[string]specVal{
+				"k":      {term: k, typ: mt.Key()},
+				"update": {term: "false", typ: tBool},
+			})
+		}
 		_, _, hm := x.mapHas(st, t.X.Type())
 		_, _, vm := x.mapVal(st, t.X.Type())
 		has := x.vc.define("has", "Bool", fmt.Sprintf("(select (select %s %s) %s)", hm, m, k))
